@@ -1,5 +1,4 @@
 package main
 
 func doSession(rq *Req) *Resp   { return &Resp{ID: rq.ID, End: "harness-error:not implemented"} }
-func doSurface(rq *Req) *Resp   { return &Resp{ID: rq.ID, End: "harness-error:not implemented"} }
 func doRunSource(rq *Req) *Resp { return &Resp{ID: rq.ID, End: "harness-error:not implemented"} }
